@@ -62,7 +62,7 @@ func runC01(c *Ctx) {
 			if !ok {
 				continue
 			}
-			name := kv.Key.(*ast.Ident).Name
+			name := eng.NameOf(kv.Key.(*ast.Ident))
 			states, isWanted := want[name]
 			if !isWanted {
 				continue
@@ -320,7 +320,7 @@ func runC01(c *Ctx) {
 							}
 							return true
 						})
-						if !strings.HasSuffix(eng.ExprStr(e), ".distance") {
+						if !eng.IsField(info, e, "dht/qpeerset.queryPeerState.distance") {
 							return nil
 						}
 						return found
@@ -478,6 +478,31 @@ func runC01(c *Ctx) {
 			}
 			c.Check(K(qp.Name, "collects response"), qp.Pos(), napp == 1, "the response is collected by one append", "found "+itoa(napp))
 		}
+		// every heard peer other than self reaches TryAdd: no other test may drop one
+		{
+			u := c.Fn("(*dht.query).updateState")
+			uinfo := u.Info()
+			ucf := u.CFG()
+			loops := elemLoopsOver(u, func(e ast.Expr) bool { return eng.IsField(uinfo, e, "dht.queryUpdate.heard") })
+			c.Check(K(u.Name, "heard loop"), u.Pos(), len(loops) == 1, "updateState goes over the heard list once", "found "+itoa(len(loops))+" loops")
+			for _, lp := range loops {
+				var adds []eng.Loc
+				for _, call := range u.Calls(fnTryAdd) {
+					if eng.Contains(lp.Body, call) || !eng.Contains(u.Body, call) {
+						adds = append(adds, ucf.LocOf(call))
+					}
+				}
+				head := lp.HeadLoc(ucf)
+				ok, w := passOrFact(ucf, head, eng.LocSet(head), adds, func(ft eng.Fact) bool {
+					x, y, equal, isEq := ft.EqFact()
+					if !isEq || !equal {
+						return false
+					}
+					return (lp.IsElem(x) && eng.IsField(uinfo, y, "dht.IpfsDHT.self")) || (lp.IsElem(y) && eng.IsField(uinfo, x, "dht.IpfsDHT.self"))
+				})
+				c.CheckW(K(u.Name, "every heard peer is added"), lp.Stmt.Pos(), ok && len(adds) >= 1 && head.Valid(), "every peer of update.heard other than the local node is handed to TryAdd (a peer dropped here can be missing from the K nearest when a nearer one fails later)", "an iteration of the heard loop can skip TryAdd for a peer that is not self", ucf.DescribePath(w))
+			}
+		}
 		c.Check("self filter", 0, f1 || f2, "every response-sourced ID crosses at least one `!= self` filter before TryAdd", "neither the filter in queryPeer nor the one in updateState is present")
 		// seeds
 		rq := c.Fn("(*dht.IpfsDHT).runQuery")
@@ -590,7 +615,7 @@ func c01R5(c *Ctx) {
 		fields := map[string]ast.Expr{}
 		for _, el := range cl.Elts {
 			if kv, ok := el.(*ast.KeyValueExpr); ok {
-				fields[kv.Key.(*ast.Ident).Name] = kv.Value
+				fields[eng.NameOf(kv.Key.(*ast.Ident))] = kv.Value
 			}
 		}
 		onlyP := func(e ast.Expr) bool {
